@@ -363,7 +363,48 @@ def rule_f(ctx):
                     bad.append(f"self.{a} = {t[:90]}")
             ctx.ob(R, f.qname, f"space_dim {dim}, {given} given: no stored quantity depends on num_voxels entries beyond the spatial ones", not bad,
                    "; ".join(bad) + " -- constructed with the shape of series / vector data, every integral is off by the product of the extra extents", f.node, evidence=True)
+    # ... and the three descriptions of the voxelisation agree: voxel_size[i] * num_voxels[i] = dimensions[i] on every axis, whichever of
+    # dimensions / voxel_size (or both, as Image.shape_metadata() provides them) the constructor is given
+    from ..algebra import NotPolynomial, Poly
+    from ..fold import Sym
+
+    def poly(t):
+        if isinstance(t, Opaque):
+            return Poly.atom(t.label)
+        if isinstance(t, Sym) and t.fn in ("+", "-", "*", "/") and len(t.args) == 2 and t.recv is None:
+            a, b = poly(t.args[0]), poly(t.args[1])
+            return {"+": lambda: a + b, "-": lambda: a - b, "*": lambda: a * b, "/": lambda: a / b}[t.fn]()
+        if isinstance(t, (int,)) and not isinstance(t, bool):
+            return Poly.const(t)
+        raise NotPolynomial(repr(t))
+
+    for dim in (1, 2, 3):
+        for given in ("dimensions", "voxel_size", "both"):
+            ctx.instance(R + ".consistent")
+            nv = [Opaque("int", f"N{k}") for k in range(dim)]
+            kw = {"space_dim": dim, "num_voxels": nv}
+            if given in ("dimensions", "both"):
+                kw["dimensions"] = [Opaque("f", f"L{k}") for k in range(dim)]
+            if given in ("voxel_size", "both"):
+                kw["voxel_size"] = [Opaque("f", f"h{k}") for k in range(dim)]
+            so = Obj("self", {"__class__": "Geometry"})
+            fo = Folder(symbolic=True)
+            fo.func_stack.append(f.node)
+            title = f"space_dim {dim}, {given if given != 'both' else 'dimensions and voxel_size'} given: voxel_size[i] * num_voxels[i] = dimensions[i] on every axis"
+            try:
+                fo.call(f.node, [so], kw)
+                vs, dm, nvs = so.fields.get("voxel_size"), so.fields.get("dimensions"), so.fields.get("num_voxels")
+                if not all(isinstance(x, (list, tuple)) and len(x) >= dim for x in (vs, dm, nvs)):
+                    raise Refuse("stored quantities are not per-axis lists")
+                bad = []
+                for i in range(dim):
+                    if poly(vs[i]) * poly(nvs[i]) != poly(dm[i]):
+                        bad.append(f"axis {i}: voxel_size = {nf(vs[i])}, num_voxels = {nf(nvs[i])}, dimensions = {nf(dm[i])}")
+                ctx.ob(R, f.qname, title, not bad, "; ".join(bad[:2]) + " -- the voxel volume no longer is the cell's share of the domain: every integral is off by the ratio", f.node, evidence=True)
+            except (Refuse, Raised, NotPolynomial) as e:
+                ctx.ob(R, f.qname, title, False, f"stored voxelisation not found in polynomial form: {e}", f.node)
     ctx.floor(R, 1)
+    ctx.floor(R + ".consistent", 9)
 
 
 def _integrate_uses_resize(m):
